@@ -332,6 +332,8 @@ impl<'n> Node<'n> {
         if split_indexes.is_empty() {
             return None;
         }
+        #[cfg(feature = "verif-hooks")]
+        crate::verif::note(|| format!("sp split node={} at={:?}", self.page_id, split_indexes));
 
         // split all of the data on the split indexes
         // Create new vector of data to go on it's own pages
